@@ -40,6 +40,10 @@ def run(ctx):
     ctx.guarded("R07.5", "is_done", lambda: is_done(ctx, "R07.5"))
     ctx.guarded("R07.6", "counter", lambda: counter(ctx))
     ctx.guarded("R07.8", "process", lambda: process(ctx))
+    ctx.rule("R07.9", "responses are delivered at most once, whole and in the order supplied: writer bookkeeping and FIFO discipline of the response queue (= C06 R06.1-R06.5, R06.7)")
+    from .c06 import paths as writer_paths, fifo
+    ctx.guarded("R07.9", "writer", lambda: writer_paths(ctx, "R07.9"))
+    ctx.guarded("R07.9", "fifo", lambda: fifo(ctx, "R07.9", "response_queue", {"push_back", "pop_front", "clear"}))
 
 
 def ids(ctx):
